@@ -232,6 +232,11 @@ pub mod channel {
 
     impl<T> Drop for Sender<T> {
         fn drop(&mut self) {
+            if std::thread::panicking() {
+                // unwinding after a failure: the execution is being torn down and the
+                // model locks may already be closed; bookkeeping no longer matters
+                return;
+            }
             // Never panic in drop: during an unwinding panic shuttle refuses to
             // schedule, and a poisoned model lock must not turn into an abort.
             let last = match self.chan.state.lock() {
@@ -249,6 +254,9 @@ pub mod channel {
 
     impl<T> Drop for Receiver<T> {
         fn drop(&mut self) {
+            if std::thread::panicking() {
+                return;
+            }
             // crossbeam discards queued messages eagerly when the last receiver
             // goes away (list and array flavours both do); mirror that, dropping the
             // messages outside the lock because they may own other channel ends.
